@@ -166,6 +166,51 @@ func checkC12(p *Prog, r *Report) {
 			r.unresolved(rule, "file-creating calls in "+w.Name())
 		}
 	}
+	// every entry of the archive is materialised: in the reader, the case of a header kind has no way back to the loop
+	// that skips the call creating the entry (a `continue` for links that "point outside" drops upward-pointing relative
+	// links of an ordinary tree)
+	if rcz := p.Fn("cache", "dirCache.retrieveCompressed"); rcz == nil {
+		r.unresolved("E9.archive-writer-reader", "cache.dirCache.retrieveCompressed")
+	} else {
+		n, bad := 0, 0
+		eachInstr(rcz, false, func(_ *ssa.Function, i ssa.Instruction) {
+			c, ok := i.(*ssa.Call)
+			if !ok || !isCallTo(c, "os.Symlink") {
+				return
+			}
+			n++
+			// the entry of the case: the nearest dominating block whose facts compare the header's Typeflag
+			var entry *ssa.BasicBlock
+			for b := c.Block(); b != nil; b = b.Idom() {
+				isCase := false
+				for _, f := range condFacts(b) {
+					if bo, ok := f.V.(*ssa.BinOp); ok && bo.Op == token.EQL && f.Val && strings.HasSuffix(fieldKeyOfLoad(bo.X), "tar.Header.Typeflag") {
+						isCase = true
+					}
+				}
+				if isCase {
+					entry = b
+				} else if entry != nil {
+					break
+				}
+			}
+			if entry == nil || len(entry.Instrs) == 0 {
+				bad++
+				return
+			}
+			// from the case entry, can control leave without Symlink and without returning an error?
+			for _, l := range loopBlocksOf(rcz, entry) {
+				if len(l.Instrs) > 0 && existsPath(rcz, entry.Instrs[0], l.Instrs[0], func(j ssa.Instruction) bool { return j == ssa.Instruction(c) }) && entry.Instrs[0] != ssa.Instruction(c) {
+					bad++
+				}
+			}
+		})
+		if n == 0 {
+			r.unresolved("E9.archive-writer-reader", "os.Symlink in retrieveCompressed")
+		} else {
+			r.check(bad == 0, "E9.archive-writer-reader", "every symlink entry of the archive is recreated", p.pos(rcz.Pos()), fnName(rcz), "the symlink case reaches os.Symlink on every path that goes on to the next entry", "the reader can skip a symlink entry and carry on with the next one (e.g. for targets that are not `local` by filepath.IsLocal): a relative link that climbs with ../ but stays inside the tree is dropped with a warning while the retrieve still reports a hit")
+		}
+	}
 	// whatever is restored replaces what is in the way: ensureRetrieveReady removes the old output on every success path
 	if err0 := p.Fn("cache", "dirCache.ensureRetrieveReady"); err0 == nil {
 		r.unresolved("E5.retrieve-clears-the-way", "cache.dirCache.ensureRetrieveReady")
@@ -733,4 +778,17 @@ func (p *Prog) cleanWalkRules(r *Report) {
 		})
 	}
 	r.check(follows == "", "E7.sizing-does-not-follow-links", "findSize never follows a symlink", p.pos(findSize.Pos()), fnName(findSize), "sizes come from the walker's own (l)stat information", "findSize stats entries with "+follows+", which follows symlinks: a dangling link inside a cache entry makes it fail, clean() returns on the error before evicting anything, and the cache stays above its bound")
+}
+
+// loopBlocksOf: headers of the loops that contain block b.
+func loopBlocksOf(fn *ssa.Function, b *ssa.BasicBlock) []*ssa.BasicBlock {
+	var out []*ssa.BasicBlock
+	for h, body := range loopBlocks(fn) {
+		for _, x := range body {
+			if x == b {
+				out = append(out, h)
+			}
+		}
+	}
+	return out
 }
